@@ -69,6 +69,28 @@ class SymCtx(BaseCtx):
         self.I.contracts[f] = handler
     def loop_contract(self, qualname, ordinal, handler):
         self.I.loop_contracts[(qualname, ordinal)] = handler
+    def loop_body(self, f, ordinal, local_vars):
+        from .interp import find_node, Env, enclosing_class, Break, Continue
+        import types
+        if isinstance(f, types.MethodType): f = f.__func__
+        node = find_node(f)
+        stmt = None
+        todo = list(node.body)
+        while todo:
+            st = todo.pop(0)
+            if getattr(st, '_loopkey', None) == (node._qual, ordinal): stmt = st; break
+            if isinstance(st, (_ast.FunctionDef, _ast.ClassDef)): continue
+            todo = list(_ast.iter_child_nodes(st)) + todo
+        if stmt is None: raise EngineError('loop %d of %s not found' % (ordinal, node._qual))
+        env = Env(f.__globals__, None, cls=enclosing_class(node))
+        env.vars.update(local_vars); env.selfobj = local_vars.get('self')
+        ys = []
+        try:
+            for y in self.I.exec_block(stmt.body, env): ys.append(y)
+        except (Break, Continue):
+            pass
+        self.I.evaluated.add(node._qual + '#loop%d' % ordinal)
+        return ys, env.vars
     def axiom_inverse(self, f, g, proved_by):
         """forall k..,x. g(k.., f(k.., x)) == x : the last argument is the data, the others are shared parameters"""
         assert f.arg_bits == g.arg_bits and f.out_bits == f.arg_bits[-1] and g.out_bits == f.arg_bits[-1]
